@@ -40,16 +40,16 @@ Proof.
   apply subsetb_spec. intros x Hx. apply Hab. exact (proj1 (subsetb_spec _ _) H x Hx).
 Qed.
 
-Lemma forallb_aset {V} (P : uid * V -> bool) (l : list (uid * V)) k v :
+Lemma forallb_aset {V} (P : N * V -> bool) (l : list (N * V)) (k : N) v :
   forallb P l = true -> P (k, v) = true -> forallb P (aset N.eqb l k v) = true.
 Proof.
   intros Hl Hp. unfold aset. destruct (amem N.eqb l k).
   - rewrite forallb_forall in *. intros x Hx. apply in_map_iff in Hx. destruct Hx as [y [Hy Hin]].
     destruct (N.eqb (fst y) k); subst; [exact Hp | exact (Hl _ Hin)].
-  - rewrite forallb_app, Hl. simpl. rewrite Hp. reflexivity.
+  - rewrite forallb_app. apply andb_true_intro. split; [exact Hl | simpl; rewrite Hp; reflexivity].
 Qed.
 
-Lemma forallb_adel {V} (P : uid * V -> bool) (l : list (uid * V)) k :
+Lemma forallb_adel {V} (P : N * V -> bool) (l : list (N * V)) (k : N) :
   forallb P l = true -> forallb P (adel N.eqb l k) = true.
 Proof.
   intro Hl. unfold adel. rewrite forallb_forall in *. intros x Hx.
@@ -64,7 +64,7 @@ Proof.
   - inversion Hs; subst; clear Hs. simpl. eapply refs_okb_mono; [|exact H].
     intros x Hx. destruct (memN a (a_actions s)); [exact Hx | apply in_or_app; left; exact Hx].
   - destruct (memN a (a_actions s)); [|discriminate].
-    destruct (refs_okb _ (a_insts s)) eqn:E; inversion Hs; subst. exact E.
+    destruct (refs_okb (filter (fun x : N => negb (N.eqb x a)) (a_actions s)) (a_insts s)) eqn:E; inversion Hs; subst. exact E.
   - destruct (refs_okb keep (a_insts s)) eqn:E; inversion Hs; subst. exact E.
   - destruct (lis && negb (subsetb refs (a_actions s))) eqn:E; inversion Hs; subst; clear Hs. simpl.
     unfold refs_okb. apply forallb_aset; [exact H|]. simpl.
@@ -82,12 +82,12 @@ Qed.
 Theorem reachable_refs_exist ops s :
   arun empty_astate ops = Some s -> ARefsOK s.
 Proof.
-  intro H. unfold ARefsOK. apply refs_okb_sound. exact (arun_ok ops _ _ eq_refl H).
+  intro H. unfold ARefsOK. apply refs_okb_sound. exact (arun_ok ops empty_astate s (eq_refl : AOk empty_astate) H).
 Qed.
 
 (* from a snapshot of the real State that passed the check *)
 Theorem continued_refs_exist s0 ops s :
   refs_okb (a_actions s0) (a_insts s0) = true -> arun s0 ops = Some s -> ARefsOK s.
 Proof.
-  intros H0 H. unfold ARefsOK. apply refs_okb_sound. exact (arun_ok ops _ _ H0 H).
+  intros H0 H. unfold ARefsOK. apply refs_okb_sound. exact (arun_ok ops s0 s H0 H).
 Qed.
